@@ -73,9 +73,7 @@ def tokOK (cfg : LexCfg) : CTok → Bool
   | .err e => cfg.errors.any (fun p => p.2 = e)
   | .comma => cfg.decimal != ','
   | .ref sh r => sheetOK sh && refOK r
-  | .range sh l r =>
-    -- two cells; whole-row / whole-column ranges (`3:5`, `A:C`) are tied by the differential run only
-    sheetOK sh && refOK l && refOK r && !fullRowOf l r && !fullColOf l r
+  | .range sh l r => sheetOK sh && refOK l && refOK r   -- `A1:B2`, and whole columns / rows `A:C`, `3:5`
   | .sref _ _ _ => false       -- structured references have no printed form in stringify.rs
   | _ => true
 
@@ -100,7 +98,7 @@ def badNext (cfg : LexCfg) (t : CTok) (c : Char) : Bool :=
       -- the plain form `A1` is read by the identifier branch
       isIdentChar cfg.cc c || c = '!' || c = '$' || c = '(' || c = ':'
     else isDigit c || c = ':'
-  | .range _ _ _ => isDigit c
+  | .range _ l r => if fullRowOf l r || fullColOf l r then isAlphaOrDigit c else isDigit c
   | _ => false
 
 def follow (cfg : LexCfg) (t : CTok) (rest : List Char) : Bool :=
@@ -150,5 +148,8 @@ structure CfgOK (cfg : LexCfg) : Prop where
   true_upper : upperStr cfg cfg.trueName = cfg.trueName
   false_upper : upperStr cfg cfg.falseName = cfg.falseName
   true_ne_false : cfg.trueName ≠ cfg.falseName
+  /-- a boolean name is not spelled like a column (`TRUE:` is not the start of a column range) -/
+  true_not_col : isValidColumn cfg.trueName = false
+  false_not_col : isValidColumn cfg.falseName = false
 
 end IronCalc.Formula
